@@ -13,7 +13,6 @@
   All theorems are [P]: every font record (any metrics, any spacing unless stated), every string, every
   position, every style. Characters are code points; `\n` = 10, `\r` = 13.
 
-  -- [V] picture (pixel map) equality of chained drawing `s1` then `s2` vs `s1 ++ s2` on a target (last write wins between glyph cells and the two decoration rectangles): carried by correspondence + oracle only; proved here: same glyph calls, same returned position, decoration rectangle of the whole = union of the parts
   -- [V] drawn extent of a line (glyph bitmaps may leave columns of the line box empty when no background colour is set): the alignment theorems are about the line box `measure_string` reports and `draw_string` is given; the oracle checks the drawn extent with a background colour
   -- [V] `i32` overflow of positions (`y += line_height`, `x + width`) is not modelled (C08): carried by correspondence + oracle only
   -- [V] observation outside the quantifier (custom font with spacing > 0, neither text nor background colour): `draw_string` returns one trailing spacing more than `measure_string` (`draw_next_transparent_with_spacing`, witness in corpus/C15.ops): checked on the real code by the oracle, not a claim of the property
